@@ -47,6 +47,10 @@ long init_events = 0;
 std::string fmt(const char *f, ...) __attribute__((format(printf, 1, 2)));
 std::string fmt(const char *f, ...) { char b[400]; va_list ap; va_start(ap, f); vsnprintf(b, sizeof b, f, ap); va_end(ap); return b; }
 
+} // namespace
+void (*monitor_layout_cb)(bool) = nullptr;
+namespace {
+
 void viol(const char *prop, const char *sig, const std::string &d) {
     for (auto &v : pending) if (v.prop == prop && v.sig == sig) return; // one per class per run
     Viol v; v.prop = prop; v.oracle = sig; v.sig = sig; v.detail = d; v.op = cur_op;
@@ -98,6 +102,23 @@ void on_init(long n, const void *ptr, long c) {
         t += "\n     etree:"; for (long j = 0; j < n; ++j) t += " " + std::to_string((long)et[j]);
         t += "\n     panels:"; for (long j = 0; j < n; ++j) t += " " + std::to_string((long)shared->pan_status[j].size) + (shared->pan_status[j].type == RELAXED_SNODE ? "r" : "p");
         t += "\n"; if (write(sim::trace_fd, t.data(), t.size()) < 0) {}
+    }
+    if (monitor_layout_cb) {
+        // replay the walk of ?PresetMap over the bounding partition: a relaxed supernode is only seen if the walk lands on its first column
+        const int_t *sb = options->part_super_h; bool skipped = false;
+        for (long j = 0; j < n;) {
+            long w;
+            if (shared->pan_status[j].type == RELAXED_SNODE && shared->pan_status[j].size > 0) {
+                long last = j + shared->pan_status[j].size, i = j;
+                while (i < last) { long s_ = sb[i]; if (s_ <= 0) { s_ = 1; } i += s_; }
+                w = i - j;
+            } else {
+                w = sb[j] > 0 ? sb[j] : 1;
+            }
+            for (long k = j + 1; k < j + w && k < n; ++k) if (shared->pan_status[k].type == RELAXED_SNODE && shared->pan_status[k].size > 0) skipped = true;
+            j += w;
+        }
+        monitor_layout_cb(skipped);
     }
     if (shared->num_splits > 0) probes["panel_split_at_top"]++;
     probes["factorizations_monitored"]++;
